@@ -730,6 +730,7 @@ type Filter struct {
 	OnlyActors  func(name string) bool
 	// AcceptOnly: transport may accept bytes (never deliver) on the client->server direction.
 	C2SAcceptOnly bool
+	S2CAcceptOnly bool
 	// NoC2S / NoS2C stall one direction completely.
 	NoC2S, NoS2C bool
 }
@@ -748,13 +749,13 @@ func (w *World) Enabled(f Filter) []Action {
 			acts = append(acts, Action{kind, fmt.Sprintf("release:%s#%d", p.Name, p.N), func() { w.Points.Release(p) }})
 		}
 	}
-	if !f.NoTransport || f.C2SAcceptOnly {
+	if !f.NoTransport || f.C2SAcceptOnly || f.S2CAcceptOnly {
 		for _, d := range []struct {
 			n string
 			h *half
 		}{{"c2s", w.A.out}, {"s2c", w.B.out}} {
 			h, n := d.h, d.n
-			if f.NoTransport && n != "c2s" {
+			if f.NoTransport && !((n == "c2s" && f.C2SAcceptOnly) || (n == "s2c" && f.S2CAcceptOnly)) {
 				continue
 			}
 			if (n == "c2s" && f.NoC2S) || (n == "s2c" && f.NoS2C) {
